@@ -11,6 +11,7 @@
  *   get C P               > get <st> [value]
  *   gett C P TYPE         > gett <st> [value]          kdump_get_typed_attr
  *   set C P V             > set <st>
+ *   badset C P V ST       > set <st>                   a value the key's pre-set hook refuses (ST: status the model echoes)
  *   ref C R P             > ref <st>
  *   sub C R R2 S          > sub <st>                   kdump_sub_attr_ref
  *   rget C R              > rget <st> [value]
@@ -270,6 +271,11 @@ int main(void)
 			if (vparse(a2, &at)) { puts("> setsub badvalue"); continue; }
 			st = kdump_set_sub_attr(ctxs[c], &refs[r], a1, &at);
 			show("setsub", ctxs[c], st, NULL, NULL);
+		} else if (sscanf(line, "badset %d %65535s %65535s", &c, a1, a2) == 3) {
+			/* a value the attribute's pre-set hook refuses (4th token = expected status, for the model only) */
+			if (vparse(a2, &at)) { puts("> set badvalue"); continue; }
+			st = kdump_set_attr(ctxs[c], P(a1), &at);
+			show("set", ctxs[c], st, NULL, NULL);
 		} else if (sscanf(line, "set %d %65535s %65535s", &c, a1, a2) == 3) {
 			if (vparse(a2, &at)) { puts("> set badvalue"); continue; }
 			st = kdump_set_attr(ctxs[c], P(a1), &at);
